@@ -2,3 +2,31 @@ add("C01",
     "property-based testing (proptest, grammar-based glob generator) against an independent three-valued reference matcher",
     "Generated-input search: thousands of buildable globs x pools of witness/mutant/random/regex-directed paths are judged by a reference matcher that shares no code with wax; finds violations, never proves absence.",
     "Trusted: the reference matcher (strict/lenient modes, self-tested on the README examples), proptest, the renderer. Unix semantics only; expressions <= ~20 tokens, nesting <= 3, paths <= 120 bytes.")
+add("C04",
+    "property-based testing (proptest): reported captures re-validated by a constrained reference match",
+    "Generated-input search over buildable globs x matching paths x capture indices; every reported capture set must be a valid decomposition of the path under the independent reference matcher (capturing tokens forced onto the reported spans), plus structural clauses and owned==borrowed.",
+    "Trusted: reference matcher in lenient mode with forced spans; pointer arithmetic on the borrowed capture slices. Absorbed separators may or may not be part of a tree wildcard's capture.")
+add("C06",
+    "property-based testing (proptest, rule-agnostic grammar) + bounded-exhaustive enumeration of nested shapes against a reference rule checker",
+    "Generated and enumerated expressions (all shapes up to a size bound over literal/separator/wildcard/tree/alternation/repetition) are judged by a compositional reference implementation of the documented rules; context-freeness is additionally checked metamorphically (unrelated siblings must not change the verdict) and every built glob must be Always/Never rooted.",
+    "Trusted: the reference rule checker (three-valued: shapes the statement leaves open are UNSPECIFIED). The enumeration is exhaustive only for its small alphabet and size bound (quick: 4 tokens, thorough: 6).")
+add("C07",
+    "metamorphic property-based testing (proptest): substitution / unrolling / wrapping / any() families must agree on every path",
+    "Pure metamorphic relations between wax outputs over generated expression families and path pools; no reference matcher involved, so it also covers shapes where the documentation is silent.",
+    "Trusted: the AST rewriting (members that cannot be written down are not members); inside a repetition that may iterate more than once substitution/unrolling are only checked in the sound direction.")
+add("C09",
+    "property-based testing (proptest): implication Always => every canonical descendant of a matched canonical path matches",
+    "Generated patterns biased to exhaustive-looking tails (and any() of them) x matched canonical paths x generated descendants; checks the implication between two wax outputs.",
+    "Trusted: wax's is_match as the yardstick (C01 ties it to the documentation). The empty path is canonical and every relative path lies beneath it.")
+add("C10",
+    "property-based testing (proptest): component count of every matched canonical path within the reported depth variance",
+    "Generated patterns rich in separators, tree wildcards and nested repetitions x matched canonical paths (relative for never-rooted, rooted for always-rooted patterns).",
+    "Trusted: wax's is_match; depth = number of non-empty components; `` and `/` may count an empty open component; expressions with tree wildcards that are not delimited in the expression are outside the domain.")
+add("C11",
+    "property-based testing (proptest): invariant text is matched and is the only match; cased (?i) literals must be variant",
+    "Generated patterns biased to invariance (incl. exotic casing, single-character classes, converged repetitions) x mutants of the invariant text, witnesses and regex-directed samples.",
+    "Trusted: wax's is_match; Unix case sensitivity; `has casing` = some Unicode case mapping changes the character.")
+add("C12",
+    "property-based testing (proptest): Always-rooted => matches start with `/`; globs never Sometimes; reference dot-component scan => has_semantic_literals",
+    "Generated patterns (rooted shapes, dot components nested up to two branches deep, near misses) x path pools; clause (c) uses an independent AST scan.",
+    "Trusted: the dot-component scan (only whole components spelled as literals count; converse not checked); wax's is_match.")
